@@ -425,7 +425,6 @@ func c15(c *core.Ctx) {
 		c.Exactly("handshake-decodes", n, 2)
 	})
 
-
 	// -----------------------------------------------------------------------------------------
 	c.Clause("C15.5", "message codes and ranges are validated before use: CheckCode heeded before a frame is queued, the dispatcher rejects unknown codes, a handler error ends the handler loop, From>To and StaHeight>CurHeight are rejected before any work is started")
 	c.Run("code-and-range", func() {
